@@ -414,7 +414,13 @@ pub fn message(r: &mut Rng, o: &MsgOpts) -> Message {
                         1 => 2u8,
                         _ => r.next() as u8,
                     };
-                    ControlType::from_value(b)
+                    // built by hand, not with the crate's own `from_value`: a change to that
+                    // function must not change which messages are generated
+                    match b {
+                        1 => ControlType::Request,
+                        2 => ControlType::Response,
+                        n => ControlType::Unknown(n),
+                    }
                 };
                 (
                     PayloadContent::ControlMsg(ct, blob(r, 1)),
